@@ -56,6 +56,7 @@ ForgetTheorem ==
     /\ WFPlain(r) /\ SrcType(r) = SrcType(p) /\ TgtType(r) = TgtType(p)
     /\ WFPlain(rm) /\ SrcType(rm) = SrcType(p) /\ TgtType(rm) = TgtType(p)
     \* forgetting keeps the meaning (variable hyperedges read as copies)
-    /\ (kind = "script" /\ ~Leaks(script) /\ DepAcyclic(r) /\ SingleWriter(r) /\ CopyLike(p) /\ NodeAcyclic(p) =>
+    /\ (kind = "script" /\ ~Leaks(script) /\ DepAcyclic(r) /\ SingleWriter(r) /\ CopyLike(p) /\ NodeAcyclic(p)
+          /\ (\A k \in 1 .. NE(p) : p.e[k].l = VarLabel \/ (p.e[k].l \in SigLabels /\ Len(p.e[k].s) = Arity(p.e[k].l) /\ Len(p.e[k].t) = Coarity(p.e[k].l))) =>
           EvalRef(r, X1(Len(p.s))) = EvalVarRef(p, X1(Len(p.s))))
 =============================================================================
